@@ -59,7 +59,7 @@ def required_counters(tier):
         "config.permuted": 300,
         "config.keyword": 300,
         "config.revkeyword": 300,
-        "model_crosscheck": 500, "second_call_same_function": 300, "decoy_union_first_member_binds_then_fails": 100, "reentrant.probe_sets": 8,
+        "model_crosscheck": 500, "second_call_same_function": 300, "decoy_union_first_member_binds_then_fails": 100, "reentrant.probe_sets": 8, "temporaries.checks": 100,
     }
 
 
@@ -370,6 +370,8 @@ def run_shard(rec, seed, shard, tier):
     if shard.get("i", 1) % 2 == 1:
         real.hostile_prelude(rec)  # a past: nothing the check decides may depend on it
         real.toplevel_probes(rec, None, "after the hostile prelude")
+    if shard["i"] % 4 == 1:
+        real.temporaries_probe(rec, "C02")  # short-lived values whose id() is handed on
     if shard["i"] % 8 == 0:
         arm_reentrant(rec)
     for k in range(CASES[tier]):
